@@ -53,17 +53,35 @@ static int domain_offset(const char *name, int nl)
 }
 
 static int NS_IP_SET;
+/* a query whose first label has one of the reserved length bytes 64..191 (0x40..0xbf: neither a length nor a compression pointer).
+ * No answer is demanded; whatever the server emits - an answer, a forwarded copy - must still be a well-formed message
+ * (a sub-agent's remark on the unchanged code: readname() takes such a byte for a length, putname() then refuses the label
+ * and dns_encode() ignores that) */
+static int RAWLABEL;
 static void ask(const char *name, int nl, int qtype, int edns)
 {
 	uint8_t wire[400], pkt[800];
 	static rd_msg m, q;
 	char err[128], shown[80];
-	int wl = rd_dotted_to_wire(name, nl, wire, sizeof wire);
+	int wl;
+	if (RAWLABEL) {
+		/* dotted name to wire format without the 63-byte limit on a label */
+		wl = 0;
+		for (int i = 0; i < nl; ) {
+			int j = i; while (j < nl && name[j] != '.') j++;
+			if (j == i || j - i > 191 || wl + 1 + (j - i) > 380) return;
+			wire[wl++] = (uint8_t)(j - i); memcpy(wire + wl, name + i, j - i); wl += j - i;
+			i = j + 1;
+		}
+		wire[wl++] = 0;
+	} else {
+	wl = rd_dotted_to_wire(name, nl, wire, sizeof wire);
 	if (wl < 0 || wl > 255) return;
+	}
 	static int idseq = 0x100;
 	int id = (idseq = (idseq * 7 + 13) & 0xffff) ? idseq : 1;
 	int plen = rd_mkquery(pkt, sizeof pkt, id, wire, wl, qtype, edns);
-	rd_parse(pkt, plen, &q, err);
+	if (rd_parse(pkt, plen, &q, err) && !RAWLABEL) vw_fatal("harness built a malformed query: %s", err);
 	snprintf(shown, sizeof shown, "%.60s%s", name, nl > 60 ? ".." : "");
 	for (char *c = shown; *c; c++) if ((unsigned char)*c < 0x20 || (unsigned char)*c >= 0x7f) *c = '?';
 	adv_clear();
@@ -80,6 +98,7 @@ static void ask(const char *name, int nl, int qtype, int edns)
 			viol(o->kind == 2 ? "forwarded-query-malformed" : "malformed-message", "domain %s, type %d query for %s (first label %d bytes, %d bytes on the wire): %s is malformed: %s", DOMAIN, qtype, shown, wire[0], wl, o->kind == 2 ? "the forwarded copy" : "the answer", err);
 			continue;
 		}
+		if (RAWLABEL) { if (o->kind != 2) answers++; continue; }   /* only well-formedness is demanded of a reaction to a malformed query */
 		if (o->kind == 2) { xp_count(K_FWD, 1); if (doff >= 0) viol("tunnel-name-forwarded", "domain %s: %s is under the tunnel domain but was forwarded", DOMAIN, shown); continue; }
 		answers++;
 		xp_count(K_ANSWERS, 1);
@@ -105,6 +124,7 @@ static void ask(const char *name, int nl, int qtype, int edns)
 			if (!ok) viol("ns-www-not-answered-with-address", "domain %s: A query for %s is not answered with an address record", DOMAIN, shown);
 		}
 	}
+	if (RAWLABEL) { xp_outcome(0x7000000 ^ ((uint64_t)qtype << 40) ^ ((uint64_t)answers << 32) ^ (uint64_t)(adv_nout ? adv_outs[0].len : 0)); return; }
 	if (answers > 1) viol("more-than-one-answer", "domain %s, type %d query for %s got %d answers", DOMAIN, qtype, shown, answers);
 	if (answers == 0) xp_count(K_SILENT, 1);
 	/* (an A query for ns.<domain> that arrives over IPv6 while no external address is configured cannot be answered: the
@@ -178,6 +198,20 @@ static void job(int j)
 		for (int ty = 0; ty < NTYPES; ty++) ask(name, nl, TYPES[ty], len & 1);
 		/* the same with a second 63-byte label in front of the domain */
 		if (len % 9 == 0) { pre[pl++] = '.'; for (int i = 0; i < 63; i++) pre[pl++] = 'b'; nl = under(name, pre, pl, "w"); for (int ty = 0; ty < NTYPES; ty++) ask(name, nl, TYPES[ty], 0); }
+	}
+	/* F5: first label with a reserved length byte 64..191, under the tunnel domain (echo, version, other first characters) and outside */
+	for (int len = 64; len <= 191; len += (thorough || len < 70 || len > 185 ? 1 : 7)) for (int first = 0; first < 4; first++) {
+		int pl = 0;
+		pre[pl++] = "zZvq"[first];
+		while (pl < len) { pre[pl] = 'a' + pl % 26; pl++; }
+		int nl = under(name, pre, pl, "w");
+		RAWLABEL = len;
+		for (int ty = 0; ty < NTYPES; ty++) ask(name, nl, TYPES[ty], len & 1);
+		nl = snprintf(name, sizeof name, "%.*s.elsewhere.org", pl, pre);
+		ask(name, nl, 1, 0); ask(name, nl, 16, 1);
+		/* the reserved byte in front of the second label, after a label that would start a tunnel request */
+		{ char pre2[300]; int p2 = snprintf(pre2, sizeof pre2, "%cab.%.*s", "zZvq"[first], pl, pre); nl = under(name, pre2, p2, "w"); ask(name, nl, 10, 0); ask(name, nl, 16, 1); ask(name, nl, 1, 0); }
+		RAWLABEL = 0;
 	}
 	/* F3: names of maximal total length: 245..255 bytes on the wire, labels of 63/62/1 */
 	for (int target = 240; target <= 256; target++) for (int shape = 0; shape < 3; shape++) {
